@@ -5,6 +5,8 @@
 //verif:cover VerifC04Reassembly malformed-middle-file reassembled
 //verif:assume faults: a fixed tree (a: 70 bytes over two leaves, d/b: 1 byte, e: empty; 2 entries per index file) uploaded or downloaded with one transient fault at a solver-chosen store call (source / metadata / blob / destination store, reads and listings included)
 //verif:cover VerifC04Faults upload-faulted download-faulted operation-failed operation-survived-the-fault
+//verif:assume cut transfers: the reader of source file a (upload) or of one blob of file a (download) fails with io.ErrUnexpectedEOF after a solver-chosen number of bytes
+//verif:cover VerifC04CutTransfers source-cut blob-cut
 //verif:cover VerifC04Select missing-skipped single-file filtered repeated-key
 //verif:cover VerifC04UploadDownload decoy-skipped nested-datamon-kept two-index-files empty-bundle source-read-fault-reported unreadable-source-file-skipped duplicated-content
 package core
@@ -12,6 +14,7 @@ package core
 import (
 	"context"
 
+	"github.com/oneconcern/datamon/pkg/cafs"
 	"github.com/oneconcern/datamon/pkg/model"
 	"go.uber.org/zap"
 )
@@ -345,6 +348,65 @@ func VerifC04Faults() {
 		vAssert(ok, "every-file-is-downloaded")
 		if ok {
 			vAssert(vBytesEqual(got, content), "downloaded-bytes-equal-uploaded-bytes")
+		}
+	}
+}
+
+// VerifC04CutTransfers: a transfer that is cut in the middle of an object - the source file during an upload, a blob
+// during a download - makes the operation fail; it never yields a bundle or a file holding the truncated bytes.
+func VerifC04CutTransfers() {
+	vBudget(900000000)
+	vUnwind(300000)
+	meta, blob := vRepoStores()
+	stores := vCtxStoresAll(meta, meta, blob)
+	ctx := context.Background()
+	vAssert(CreateRepo(model.RepoDescriptor{Name: "r", Description: "d", Contributor: model.Contributor{Name: "n", Email: "e@x.io"}}, stores) == nil, "create-repo")
+	big := make([]byte, 70)
+	for i := range big {
+		big[i] = byte(5*i + 2)
+	}
+	src := newVStore("src")
+	src.putRaw("a", big)
+	src.putRaw("b", []byte("bb"))
+	up := NewBundle(Repo("r"), ContextStores(stores), ConsumableStore(src), Logger(zap.NewNop()),
+		BundleDescriptor(model.NewBundleDescriptor(model.Message("m"), model.BundleContributor(model.Contributor{Name: "n", Email: "e@x.io"}))),
+		ConcurrentFileUploads(1))
+	up.BundleDescriptor.LeafSize = 64
+	cut := vInt("cutAfter", 0, 69)
+	if vChoose("cutDuring", 2) == 0 {
+		vCover("source-cut")
+		src.cutAfter = map[string]int{"a": cut}
+		err := implUpload(ctx, up, 2, nil)
+		vAssert(err != nil, "upload-of-a-cut-source-file-fails")
+		_, visible := meta.data[model.GetArchivePathToBundle("r", up.BundleID)]
+		vAssert(!visible, "no-bundle-becomes-visible")
+		return
+	}
+	vAssert(implUpload(ctx, up, 2, nil) == nil, "upload")
+	vCover("blob-cut")
+	// cut the transfer of one of the blobs (keys in the blob store: root and leaf blobs of a, and of b)
+	probe := NewBundle(Repo("r"), ContextStores(stores), BundleID(up.BundleID), Logger(zap.NewNop()))
+	vAssert(implPublishMetadata(ctx, probe, false, 2) == nil, "metadata")
+	hashA := ""
+	for _, e := range probe.BundleEntries {
+		if e.NameWithPath == "a" {
+			hashA = e.Hash
+		}
+	}
+	root, err := cafs.KeyFromString(hashA)
+	vAssert(err == nil, "root-key")
+	leaves, err := cafs.LeavesForHash(blob, root, 64, "")
+	vAssert(err == nil && len(leaves) == 2, "leaves")
+	victim := []string{root.StringWithPrefix(""), leaves[0].StringWithPrefix(""), leaves[1].StringWithPrefix("")}[vChoose("blobRole", 3)] // by role: digests differ between the hash model and the native run
+	vAssume(cut < len(blob.data[victim]))
+	blob.cutAfter = map[string]int{victim: cut}
+	dst := newVStore("dst")
+	down := NewBundle(Repo("r"), ContextStores(stores), ConsumableStore(dst), BundleID(up.BundleID), Logger(zap.NewNop()), ConcurrentFileDownloads(1), ConcurrentFilelistDownloads(1))
+	derr := implPublish(ctx, down, 2, nil)
+	vAssert(derr != nil, "download-over-a-cut-blob-transfer-fails")
+	for name, want := range map[string][]byte{"a": big, "b": []byte("bb")} {
+		if got, ok := dst.data[name]; ok {
+			vAssert(len(got) <= len(want) && vBytesEqual(got, want[:len(got)]), "destination-holds-no-altered-byte")
 		}
 	}
 }
